@@ -31,11 +31,11 @@ claim("C12", "model_checking", "explicit-state breadth-first search over call hi
       "All call sequences up to depth 4 (quick) / 8 (thorough) over 10 public operations on a graph of up to 3 live BpSeq objects, for every "
       "root pairing on up to 6/7 positions and small chord diagrams: every answer equals the answer of a fresh copy and no object in the graph "
       "ever changes; derivations equal their reference values; plus histories of depth 2/3 over the derivations on every chord diagram of 3-4 stems of "
-      "lengths 1-2 (derived objects as receivers); plus twin objects - the same knotted pairing under other letters and under one more nucleotide - interleaved in one graph.",
+      "lengths 1-2 (derived objects as receivers); plus twin objects - the same knotted pairing under other letters (incl. letters outside ACGU) and under one more nucleotide - interleaved in one graph, and crossing stems of 100-300 pairs.",
       "State merging relies on the canonical form (entries, pairs, caches, aliasing) determining all futures; deepcopy is trusted.", "DESIGN.md 3/C12")
 
 claim("C13", "model_checking", "exhaustive environment-answer and fault-sequence exploration of the solver seam on the real code, each execution replayed",
-      "All 21 solver configurations and all fault scripts of length <=2/3 (3 only up to 9 positions) over 7 solver behaviours, on every knotted pairing on up to 8/10 "
+      "All 49 solver configurations (incl. solvers that leave every variable unassigned, leave a proper non-FCFS assignment behind, or claim an optimum they do not have, and the real CBC under an iteration limit of 0) and all fault scripts of length <=2/3 (3 only up to 9 positions) over 7 solver behaviours, on every knotted pairing on up to 8/10 "
       "positions and chord diagrams of up to 3/4 stems: the conversion never raises, is lossless, equals FCFS whenever no optimum was "
       "delivered and is optimal otherwise (also for sequences over letters other than ACGU); BpSeq.fcfs itself is compared with the reference first-come-first-served assignment; after every fault script the object is asked for its dot_bracket, which must be optimal.",
       "The solver is substituted at pulp module seams (pulp.HiGHS_CMD, pulp.LpSolverDefault, explicit argument); HiGHS itself is absent.", "DESIGN.md 3/C13")
